@@ -327,6 +327,22 @@ def build_input(op, pool):
         import copy
 
         return MazeDataset.load(copy.deepcopy(src)._serialize_minimal())
+    if op[0] == "concat":
+        # two datasets of the same grid merged by hand (e.g. a freshly generated one and one read back from an archive):
+        # equal mazes may then sit next to each other in different integer types
+        a, b = pool[op[1] % len(pool)], pool[op[2] % len(pool)]
+        if len(a) == 0 or len(b) == 0 or int(a.cfg.grid_n) != int(b.cfg.grid_n) or a.cfg.name == "line" or b.cfg.name == "line":
+            return None
+        import copy
+
+        from maze_dataset import SolvedMaze
+
+        mazes = [SolvedMaze(connection_list=z.connection_list.copy(), solution=z.solution.copy(), generation_meta=copy.deepcopy(z.generation_meta)) for z in list(a.mazes) + list(b.mazes)]
+        if len({z.generation_meta is None for z in mazes}) > 1:
+            mazes = [SolvedMaze(connection_list=z.connection_list, solution=z.solution, generation_meta=None) for z in mazes]
+        d = MazeDataset(cfg=copy.deepcopy(a.cfg), mazes=mazes, generation_metadata_collected=None)
+        d.update_self_config()
+        return d
     if op[0] == "ring":
         # hand-built mazes whose connections form the perimeter ring of a g x g grid: between two cells of the ring there are
         # two routes, so several mazes can share connection structure, start and end and still differ in their solutions
@@ -419,7 +435,7 @@ def st_history(spec, log, stats):
     name_seq = []
     for op in spec["ops"]:
         kind = op[0]
-        if kind in ("make", "dup", "chain", "narrow", "line", "ring"):
+        if kind in ("make", "dup", "chain", "narrow", "line", "ring", "concat"):
             try:
                 d = build_input(op, pool)
             except Exception as e:  # noqa: BLE001 - generation errors are not C08's business
@@ -674,6 +690,9 @@ def gen_specs(rng: random.Random, tier: str, n: int) -> list[dict]:
             ops.append(["filter", len([o for o in ops if o[0] in ("make", "dup", "chain")]) - 1, {"name": "remove_duplicates", "args": [step, rng.choice([None, 0, 1])], "kwargs": {}}])
         if rng.random() < 0.15:
             ops.append(["narrow", 0])
+            if rng.random() < 0.5:
+                ops.append(["concat", 0, -1])  # the generated dataset followed by its own read-back twin
+                ops.append(["filter", -1, rng.choice([{"name": "remove_duplicates_fast", "args": [], "kwargs": {}}, {"name": "remove_duplicates", "args": [0, 0], "kwargs": {}}])])
         if rng.random() < 0.10:
             g = rng.choice([65, 72, 100, 128, 128, 130])
             dt = "int64" if g > 128 else rng.choice(["int8", "int8", "int64"])
